@@ -14,10 +14,10 @@ import qgen
 from cprop import CompilerProp
 
 ID = "C04"
-LEAN_MODULES = ["FaxVerif.C04.Theorems", "FaxVerif.C04.TheoremsLazy", "FaxVerif.C04.TheoremsFault"]
+LEAN_MODULES = ["FaxVerif.C04.Theorems", "FaxVerif.C04.TheoremsLazy", "FaxVerif.C04.TheoremsFault", "FaxVerif.C04.TheoremsFirstLazy"]
 LEAN_SOURCES = ["FaxVerif/C04", "FaxVerif/Gen", "FaxVerif/Cpp", "FaxVerif/Linq"]
 DRIVER = cgroup.DRIVER
-SETUP_MODULES = cgroup.DRIVER_IMPORTS + ["FaxVerif.Gen.Lazy"]  # what the drivers import
+SETUP_MODULES = cgroup.DRIVER_IMPORTS + ["FaxVerif.Gen.Lazy", "FaxVerif.Gen.FirstLazy"]  # what the drivers import
 THEOREMS = [
     "FaxVerif.C04.first_idiom",
     "FaxVerif.C04.and_lazy",
@@ -54,6 +54,8 @@ THEOREMS = [
     "FaxVerif.C04.or_guard_protects",
     "FaxVerif.C04.untaken_arm_protected",
     "FaxVerif.C04.fused_where_lazy",
+    "FaxVerif.C04.first_of_lazy_select_is_first",
+    "FaxVerif.C04.first_of_lazy_select_empty_loud",
 ]
 RULE = (
     "type-directed random queries that contain at least one of First / and / or / if-else / nested Where (rejection sampling over "
@@ -61,7 +63,15 @@ RULE = (
     "rows-by-value or fault class {loud, retrieveFailed, nullDeref, stuck}. Non-trivial: >=2 distinct operators and >=1 event with "
     "a row; the evidence also counts events on which the query itself faults. Stream 'lazy-tie': random element-level rows whose "
     "columns / Where conditions nest n-ary and / or / if-else, model (Gen.compileL) text vs implementation text on three backends and "
-    "the model's package executed on events with null elements and missing accessors against denote."
+    "the model's package executed on events with null elements and missing accessors against denote. Stream 'first-lazy-tie': "
+    "`ds.Select(e -> {name: chain.Select(x -> V).First()})` with V an and / or / if-else expression (nested), chains with pure Selects "
+    "and lazy Wheres, model (Gen.compileFirstL) text vs implementation text on three backends; the model's package on one event with "
+    ">= 2 elements whose first and last differ in every accessor plus two events with null elements / missing accessors against "
+    "denote; where the texts differ the implementation's own text is executed against the denotation. The generated stream has a "
+    "fixed share (tools/qgen.py first_lazy_pass, 7% of the queries, chosen by the query's text) of First() over a projection whose "
+    "value is a declared variable (conditional, and / or, Count / Sum / Aggregate of a sub-collection or of another collection) in "
+    "every terminal position (column, row, arithmetic, comparison, guard idiom, event filter, second step, per object, nested), the "
+    "first events of such a query enriched so that first and last element differ."
 )
 TRUSTED_BASE = [
     "C++ semantics (throw = loud fault, .at() bounds-checked, if/else and nested-if control flow) and Python semantics (First of empty raises, and/or/if-else lazy) as written in lean/FaxVerif/Cpp/Sem.lean and lean/FaxVerif/Linq/Query.lean",
@@ -92,7 +102,12 @@ LEVEL_TEXT = (
     "if-else inside element-level expressions, arbitrarily nested, tied to the real translator's text on every run) the compiled "
     "statements fault iff the query expression faults — no spurious fault, none swallowed (lazy_expr_faults_equal) — and an operand "
     "behind a deciding `and` / `or` or in the untaken arm is never executed, whatever it is (and_guard_protects, or_guard_protects, "
-    "untaken_arm_protected, bop_guard_protects, fused_where_lazy) — its text is compared with the real translator's on every run. The real translator is shown to emit the First / fused-Where shapes by C01's "
+    "untaken_arm_protected, bop_guard_protects, fused_where_lazy) — its text is compared with the real translator's on every run. "
+    "First() over a projection whose VALUE needs statements (`chain.Select(x -> V).First()`, V a lazy expression held in a declared "
+    "C++ variable; model Gen.compFirstL, text tie on every run): whenever the query is defined the column ends up holding the value "
+    "of V on the FIRST kept element — the capture sits inside the `if (is_first)` guard, a later element never overwrites it — "
+    "nothing is thrown and no row is written (first_of_lazy_select_is_first), and when the chain keeps no element the code fails "
+    "loudly (first_of_lazy_select_empty_loud); for every chain, every V, every event, every number model, all three backends. The real translator is shown to emit the First / fused-Where shapes by C01's "
     "text tie, and the lazy-operator shapes by a recogniser (C04/Shapes.lean `countShapes`) run on the implementation's output "
     "for every generated query (at least one recognised shape per and/or/if-else node of the query); the fault behaviour of the "
     "implementation's own output is compared with the query's on generated events (differential)."
@@ -100,7 +115,9 @@ LEVEL_TEXT = (
 LEVEL_NOTE = (
     "The lazy-operator theorems are about the emitted shape with an arbitrary operand body; that the body is the translation of the "
     "operand (and not hoisted in front of the guard) is differential only, as is First nested inside arithmetic (the consumer is "
-    "emitted inside the guarded block). Listed findings: First over a Select that ignores its variable never fails; First over a "
+    "emitted inside the guarded block). first_of_lazy_select_* are statement-level (the loop, the flag and the throw from a state "
+    "in which flag and column are declared), not yet composed into a package-level theorem; projections whose value is an inner "
+    "aggregate (Count / Sum over a sub-collection) under First are differential only (generated stream). Listed findings: First over a Select that ignores its variable never fails; First over a "
     "SelectMany inside a lambda is taken per outer element."
 )
 TECHNIQUE = "Lean 4 theorems on the emitted First / and-lowering / Where shapes + text tie + differential execution on fault-biased events"
@@ -261,9 +278,134 @@ def guarded_tie(ctx, n):
                 break
 
 
+FIRST_LAZY_DRIVER = "FaxVerif/Gen/FirstLazyDriver.lean"
+LAZY_TOP = ("and", "or", "if")
+
+
+def first_lazy_source(name, ch, v, mds):
+    """`Select(ds0, lambda e: {name: e.coll(bank).<steps>.Select(lambda v: V).First()})` as the backend receives it"""
+    import json
+
+    import gentie_lazy
+
+    s = "ds0"
+    for d in mds:
+        s = f"MetaData({s}, {d!r})"
+    c = f"e.{ch['coll']}({json.dumps(ch['bank'])})"
+    for i, st in enumerate(ch["steps"]):
+        x = f"x{i}"
+        c = f"{c}.{'Select' if st['k'] == 'sel' else 'Where'}(lambda {x}: {gentie_lazy.le_src(x, st['e'])})"
+    c = f"{c}.Select(lambda v: {gentie_lazy.le_src('v', v)}).First()"
+    return f"Select({s}, lambda e: {{{json.dumps(name)}: {c}}})"
+
+
+def first_lazy_tie(ctx, n):
+    """Text tie for C04.first_of_lazy_select_is_first / first_of_lazy_select_empty_loud: the model's package for
+    `ds.Select(e -> {name: chain.Select(x -> V).First()})` (Gen.compileFirstL; V a lazy expression: and / or / if-else,
+    nested; the chain with pure Selects and lazy Wheres) against the real translator's, modulo a bijective renaming of
+    declared identifiers, on all three backends; the model's package is executed on events with null elements and
+    missing accessors against the denotation (where the query is defined the rows are equal: never a later element's
+    value, never a spurious fault), and so is the IMPLEMENTATION's own text whenever it differs from the model's."""
+    import gentie
+    import gentie_lazy
+
+    reqs, meta = [], []
+    for i in range(n):
+        b = P.BACKENDS[i % 3]
+        g = gentie_lazy.LazyGen(ctx.rng)
+        ch, cur = g.chain()
+        for _ in range(8):
+            ty = ctx.rng.choice(["double", "double", "bool", "bool"] + (["int"] if cur is None else []))
+            v = g.dep(g.le(cur, ty, ctx.rng.choice([1, 2, 2, 3])), cur, ty)
+            if v["k"] in LAZY_TOP or ctx.rng.random() < 0.08:
+                break
+        name = f"c0_{ctx.rng.choice(['pt', 'eta', 'n'])}"
+        r = P.translate_functional(b, first_lazy_source(name, ch, v, qgen.metadata(b)))
+        # one well-formed event with >= 2 elements whose first and last differ, two with null elements / missing accessors
+        evs = [qgen.enrich_event(qgen.gen_event(ctx.rng, b, {ch["bank"]: ch["coll"]}, empty_bias=0.0))] + [gentie_lazy.gen_event(ctx.rng, b, {"c": ch}) for _ in range(2)]
+        reqs.append({"op": "firstL", "backend": b, "colls": gentie.colls_json(b), "name": name, "c": ch, "v": v, "events": evs})
+        meta.append((b, name, ch, v, r, evs))
+    outs = ctx.driver(FIRST_LAZY_DRIVER, reqs)
+    differ = []
+    for (b, name, ch, v, r, evs), o in zip(meta, outs):
+        src = first_lazy_source(name, ch, v, [])
+        case = {"backend": b, "source": src, "chain": ch, "value": v}
+        ctx.count("stream:first-lazy-tie")
+        ctx.count("first-lazy-tie:value-" + v["k"])
+        ctx.case(f"{b}|{src}", True, {"backend": b, "query": src})
+        if "bad" in o:
+            ctx.disagreement("Gen.compileFirstL (driver)", case, o, None)
+            continue
+        ctx.count("first-lazy-tie:" + ("inside-proved-fragment" if o.get("wt") else "outside-proved-fragment"))
+        if not r["ok"]:
+            ctx.violation(key=f"first-lazy|{b}|{src}", what=f"First() over a projection with a lazy value is refused ({r['error']})", case=case, observed=r)
+            continue
+        dff = gentie.first_diff(gentie.model_canon(o), gentie.impl_canon(r))
+        if dff is None:
+            ctx.count("first-lazy-tie:text-agree")
+        else:
+            ctx.count("first-lazy-tie:text-differ")
+            differ.append((case, dff, o, r, name, ch, v, evs, b))
+        # the model instance: where the query is defined the package writes exactly its row
+        for ex, de in zip(o["exec"], o["denote"]):
+            ctx.count("first-lazy-tie:event-query-" + cgroup.fault_class(de))
+            ok, why = gentie_lazy._same_outcome(ex, de, bool(o.get("wt")))
+            if not ok:
+                ctx.disagreement("Gen.compileFirstL executed vs denote (model instance)", case, ex, de)
+                break
+    # a text difference is not yet a violation: the implementation's own output is executed against the denotation
+    for case, dff, o, r, name, ch, v, evs, b in differ[:12]:
+        q = first_lazy_query(name, ch, v)
+        good = [qgen.gen_event(ctx.rng, b, {ch["bank"]: ch["coll"]}, empty_bias=0.2) for _ in range(2)]
+        for ev in good:
+            qgen.enrich_event(ev)
+        c = cgroup.Case(b, q, [name], "select", good + [qgen.gen_event(ctx.rng, b, {ch["bank"]: ch["coll"]}, empty_bias=1.0)])
+        _P.evaluate(ctx, [c])
+        hit = judge(c)
+        if hit is not None and hit.get("kind") != "broken":
+            ctx.violation(key=c.key(), what=hit["what"], case=c.to_json(), observed=hit.get("observed"), how=_P.how)
+            return
+    if differ:
+        case, dff, o, r = differ[0][:4]
+        ctx.disagreement("Gen.compileFirstL vs translator (text modulo renaming)", dict(case, first_difference=dff), o.get("body"), r["query"])
+
+
+def _le_q(x, e):
+    """LE JSON (gentie_lazy) -> the user-level query JSON of tools/qgen.py"""
+    k = e["k"]
+    R = lambda a: _le_q(x, a)
+    if k in ("int", "dbl", "bool"):
+        return dict(e)
+    if k == "it":
+        return {"k": "var", "n": x}
+    if k == "meth":
+        return {"k": "meth", "o": {"k": "var", "n": x}, "n": e["n"]}
+    if k in ("bin", "cmp"):
+        return {"k": k, "op": e["op"], "a": R(e["a"]), "b": R(e["b"])}
+    if k in ("neg", "not"):
+        return {"k": k, "a": R(e["a"])}
+    if k in ("and", "or"):
+        acc = R(e["xs"][0])
+        for nxt in e["xs"][1:]:
+            acc = {"k": k, "flat": True, "a": acc, "b": R(nxt)}
+        return acc
+    if k == "if":
+        return {"k": "if", "c": R(e["c"]), "a": R(e["a"]), "b": R(e["b"])}
+    raise ValueError(k)
+
+
+def first_lazy_query(name, ch, v):
+    s = {"k": "coll", "e": {"k": "var", "n": "e"}, "c": ch["coll"], "bank": ch["bank"]}
+    for i, st in enumerate(ch["steps"]):
+        s = {"k": "Select" if st["k"] == "sel" else "Where", "s": s, "x": f"x{i}", "f": _le_q(f"x{i}", st["e"])}
+    s = {"k": "Select", "s": s, "x": "v", "f": _le_q("v", v)}
+    return {"k": "Select", "s": {"k": "ds"}, "x": "e", "f": {"k": "dict", "ks": [name], "es": [{"k": "First", "s": s}]}}
+
+
 class _C04(CompilerProp):
     def run(self, ctx):
         guarded_tie(ctx, 40 if ctx.tier == "quick" else 400)
+        first_lazy_tie(ctx, 60 if ctx.tier == "quick" else 600)
         from props.c01 import lazy_tie_stream
 
         lazy_tie_stream(ctx, 90 if ctx.tier == "quick" else 900)
